@@ -1,0 +1,14 @@
+//go:build verif
+
+package vm
+
+import "github.com/elk-language/elk/value"
+
+// Verification hook (add-only, build tag `verif`): read access to the slot table and the
+// counters of a HashSetOfValue, whose fields are unexported.
+
+func VerifHashSetTable(s *HashSetOfValue) []value.Value { return s.table }
+
+func VerifHashSetCounters(s *HashSetOfValue) (occupiedSlots, elements int) {
+	return s.occupiedSlots, s.elements
+}
